@@ -360,7 +360,7 @@ Lemma parse_number_int s z : parse_number true s = Some (QInt z) <-> IntNumeral 
 Proof.
   rewrite <- parse_int64_spec. unfold parse_number.
   destruct (parse_int64 s) as [z'|]; [split; congruence|].
-  cbn. destruct (is_decimal s); [destruct (float_finite s)|]; split; discriminate.
+  cbn [negb andb]. destruct (is_decimal s); [destruct (float_finite s)|]; split; discriminate.
 Qed.
 
 Lemma parse_number_float s t : parse_number true s = Some (QFloat t) <->
@@ -368,7 +368,7 @@ Lemma parse_number_float s t : parse_number true s = Some (QFloat t) <->
 Proof.
   unfold parse_number, finite_dec. destruct (parse_int64 s) as [z'|] eqn:P.
   - split; [discriminate|]. intros (_ & _ & H). exfalso; apply H. exists z'. apply parse_int64_spec; exact P.
-  - cbn. assert (NI : ~ (exists z, IntNumeral s z /\ in_int64 z)).
+  - cbn [negb andb]. assert (NI : ~ (exists z, IntNumeral s z /\ in_int64 z)).
     { intros [z H]. apply parse_int64_spec in H. congruence. }
     destruct (is_decimal s) eqn:D.
     + apply is_decimal_spec in D as (ip & frac & D).
@@ -431,7 +431,7 @@ Proof.
     - exfalso. unfold parse_number in E. destruct (parse_int64 s) as [z|] eqn:P64.
       + apply parse_int64_spec in P64 as [I _]. destruct (IntNumeral_Dec _ _ I) as (d & D' & _).
         assert (is_decimal s = true) by (apply is_decimal_spec; eauto). congruence.
-      + rewrite D in E. cbn in E. discriminate. }
+      + rewrite D in E. cbn [negb andb] in E. discriminate. }
   destruct F as (ip & frac & D & _). eapply DecNumeral_numch; eauto.
 Qed.
 
@@ -650,7 +650,7 @@ Theorem classify_marshalable s : (forall k, classify s <> QErr k) -> marshalable
 Proof.
   intros H. destruct (classify s) as [k| | |t| | | |] eqn:E; try reflexivity.
   - exfalso; apply (H k); reflexivity.
-  - apply classify_float in E as (-> & (ip & frac & D & F) & _). cbn.
+  - apply classify_float in E as (-> & (ip & frac & D & F) & _). cbn [marshalable].
     apply andb_true_iff. split; [apply is_decimal_spec; eauto|apply (float_finite_spec _ _ _ D); exact F].
 Qed.
 
@@ -685,7 +685,7 @@ Theorem refuted_without_F8 :
                params_marshalable ps = false.
 Proof.
   split; [vm_compute; reflexivity|]. split; [vm_compute; reflexivity|].
-  eexists _, _. split; vm_compute; reflexivity.
+  exists [109], (PMap [([120], QFloat nan_text)]). split; [vm_compute; reflexivity|vm_compute; reflexivity].
 Qed.
 
 (** * Method names *)
@@ -706,7 +706,7 @@ Proof.
   - exists []. repeat split; auto. intros [m H]; destruct m; discriminate.
   - destruct IH as (b & E & F & S). destruct (trim_right c r) as [|y t] eqn:T.
     + cbn in E; subst r. destruct (N.eqb_spec x c) as [->|Nx].
-      * exists (c :: b). repeat split; auto. intros [m H]; destruct m; discriminate.
+      * exists (c :: b). repeat split; auto.
       * exists b. repeat split; auto. intros [m H]. destruct m as [|z m]; cbn in H.
         -- injection H as H; congruence.
         -- injection H as _ H. destruct m; discriminate.
@@ -885,10 +885,10 @@ Proof.
   assert (H : classify (repeat 57 400) = QLit (repeat 57 400)) by (vm_compute; reflexivity).
   split; [exact H|]. apply classify_lit in H. tauto.
 Qed.
-(* the largest finite float64 boundary: 2^1024 - 2^970 - 1 is a number, 2^1024 - 2^970 is not *)
+(* around the largest finite float64 (1.797...e308): 1e308 written out is a number, 2e308 written out is not *)
 Example ex_float_edge :
-  float_finite (snd (split_sign [])) = true /\
-  (dec_val 0 [49;55;57;55;54;57;51] < float_overflow_bound)%Z.
+  classify (49 :: repeat 48 308) = QFloat (49 :: repeat 48 308) /\
+  classify (50 :: repeat 48 308) = QLit (50 :: repeat 48 308).
 Proof. split; vm_compute; reflexivity. Qed.
 Example ex_str : classify [34; 97; 92; 110; 34] = QStr [97; 10]                       (* "a\n" with the escape *)
               /\ classify [34; 92; 117; 100; 56; 51; 100; 34] = QStr [239; 191; 189]  (* lone surrogate *)
